@@ -583,3 +583,168 @@ class Patterns:
                     if nm:
                         out.append((f, n, fn, nm))
         return out
+
+
+def mandatory_nonspace(sub):
+    """Does every match of the pattern contain at least one non-blank character
+    (a mandatory atom that cannot be a space/tab)?"""
+    for op, av in items(sub):
+        if op is C.LITERAL:
+            if not chr(av).isspace():
+                return True
+        elif op is C.IN:
+            cs = class_chars(av)
+            if cs is not None and not any(c.isspace() for c in cs):
+                return True
+            if cs is None and all(o2 is C.CATEGORY and a2 in (C.CATEGORY_WORD, C.CATEGORY_DIGIT) or o2 in (C.LITERAL, C.RANGE) and not (o2 is C.LITERAL and chr(a2).isspace()) for o2, a2 in av):
+                return True
+        elif op in REPEATS:
+            if av[0] >= 1 and mandatory_nonspace(av[2]):
+                return True
+        elif op is C.SUBPATTERN:
+            if mandatory_nonspace(av[3]):
+                return True
+        elif op is C.BRANCH:
+            if all(mandatory_nonspace(alt) for alt in av[1]):
+                return True
+    return False
+
+
+# ---------------------------------------------------- ASCII first-set algebra
+_ASCII = [chr(i) for i in range(128)]
+_CAT = {
+    C.CATEGORY_DIGIT: frozenset(c for c in _ASCII if c.isdigit()),
+    C.CATEGORY_NOT_DIGIT: frozenset(c for c in _ASCII if not c.isdigit()),
+    C.CATEGORY_SPACE: frozenset(c for c in _ASCII if c.isspace()),
+    C.CATEGORY_NOT_SPACE: frozenset(c for c in _ASCII if not c.isspace()),
+    C.CATEGORY_WORD: frozenset(c for c in _ASCII if c.isalnum() or c == "_"),
+    C.CATEGORY_NOT_WORD: frozenset(c for c in _ASCII if not (c.isalnum() or c == "_")),
+}
+ALL_ASCII = frozenset(_ASCII)
+
+
+def atom_chars(op, av, ic=False):
+    """ASCII characters a single-character atom can match."""
+    if op is C.LITERAL:
+        ch = chr(av)
+        s = {ch.lower(), ch.upper()} if ic else {ch}
+        return frozenset(s) & ALL_ASCII or frozenset(s)
+    if op is C.NOT_LITERAL:
+        return ALL_ASCII - {chr(av)}
+    if op is C.ANY:
+        return ALL_ASCII - {"\n"}
+    if op is C.IN:
+        neg = False
+        out = set()
+        for o2, a2 in av:
+            if o2 is C.NEGATE:
+                neg = True
+            elif o2 is C.LITERAL:
+                out.add(chr(a2))
+            elif o2 is C.RANGE:
+                out |= {chr(c) for c in range(a2[0], min(a2[1], 127) + 1)}
+            elif o2 is C.CATEGORY:
+                out |= _CAT.get(a2, ALL_ASCII)
+        if ic:
+            out |= {c.lower() for c in out} | {c.upper() for c in out}
+        return frozenset(ALL_ASCII - out if neg else out)
+    return None
+
+
+def first_chars(sub, ic=False):
+    """(set of ASCII first characters, nullable) of a sequence."""
+    out = set()
+    for op, av in items(sub):
+        if op in ZERO_WIDTH:
+            continue
+        fs, nullable = _first1(op, av, ic)
+        out |= fs
+        if not nullable:
+            return frozenset(out), False
+    return frozenset(out), True
+
+
+def _first1(op, av, ic):
+    a = atom_chars(op, av, ic)
+    if a is not None:
+        return a, False
+    if op in REPEATS:
+        fs, nl = first_chars(av[2], ic)
+        return fs, nl or av[0] == 0
+    if op is C.SUBPATTERN:
+        return first_chars(av[3], ic)
+    if op is C.ATOMIC_GROUP:
+        return first_chars(av, ic)
+    if op is C.BRANCH:
+        out, nl = set(), False
+        for alt in av[1]:
+            fs, n2 = first_chars(alt, ic)
+            out |= fs
+            nl = nl or n2
+        return frozenset(out), nl
+    if op is C.GROUPREF_EXISTS:
+        out, nl = set(), False
+        for alt in (av[1], av[2]):
+            if alt is None:
+                nl = True
+                continue
+            fs, n2 = first_chars(alt, ic)
+            out |= fs
+            nl = nl or n2
+        return frozenset(out), nl
+    return ALL_ASCII, True
+
+
+def ambiguous_nested_repeats(sub, ic=False):
+    """Unbounded repetition nested in an unbounded repetition such that one
+    input can be split between the inner and the outer loop in many ways:
+    (X*)*  /  (X+)*  /  (X+ Y*)* with first(Y) or first(X) overlapping first(X).
+    Returns descriptions (empty list = none)."""
+    found = []
+
+    def unbounded(av):
+        return av[1] is C.MAXREPEAT
+
+    def scan_body(body, outer_desc):
+        seq = items(body)
+        for i, (op, av) in enumerate(seq):
+            if op in REPEATS and unbounded(av):
+                fs_inner, _ = first_chars(av[2], ic)
+                # what may follow the inner loop inside one outer iteration
+                rest_fs, rest_null = first_chars(seq[i + 1:], ic) if seq[i + 1:] else (frozenset(), True)
+                follow = set(rest_fs)
+                if rest_null:
+                    # ... or the next outer iteration starts
+                    fs_body, _ = first_chars(seq, ic)
+                    # the prefix before the inner loop must be nullable for the
+                    # next iteration to begin with the inner loop's characters
+                    pre_fs, pre_null = first_chars(seq[:i], ic) if seq[:i] else (frozenset(), True)
+                    follow |= set(pre_fs)
+                    if pre_null:
+                        follow |= set(fs_inner)
+                if fs_inner & follow:
+                    found.append(f"unbounded repetition nested in {outer_desc}: the same characters ({''.join(sorted(fs_inner & follow))[:12]!r}) can be consumed by the inner loop or by what follows it")
+            elif op is C.SUBPATTERN:
+                scan_body(av[3], outer_desc)
+            elif op is C.BRANCH:
+                for alt in av[1]:
+                    scan_body(alt, outer_desc)
+
+    def rec(seq):
+        for op, av in items(seq):
+            if op in REPEATS:
+                if unbounded(av):
+                    scan_body(av[2], "an unbounded repetition")
+                rec(av[2])
+            elif op is C.SUBPATTERN:
+                rec(av[3])
+            elif op is C.BRANCH:
+                for alt in av[1]:
+                    rec(alt)
+            elif op in (C.ASSERT, C.ASSERT_NOT):
+                rec(av[1])
+            elif op is C.ATOMIC_GROUP:
+                rec(av)
+
+    rec(sub)
+    return found
